@@ -308,6 +308,16 @@ pub fn shape_family() -> Vec<(String, String, Vec<String>)> {
             out.push((p.replace("\\\\", "\\"), f.to_string(), ["", "a", "b", "ab", "ba", "c", "ac", "bc", "bb"].iter().map(|h| h.to_string()).collect()));
         }
     }
+    // nests of small exact counts: the unrolled body outgrows the unroll budget part of the way up, after which the
+    // literal pass fuses it into one node (the pass order and the number of rounds of `optimize` are visible in the IR)
+    for (cnt, depth) in [(5usize, 4usize), (5, 5), (4, 5), (3, 6), (2, 9)] {
+        for (open, close) in [("(?:", ")"), ("(?:x?", ")"), ("(", ")")] {
+            let mut p = format!("a{{{}}}", cnt);
+            for _ in 0..depth { p = format!("{}{}{}{{{}}}", open, p, close, cnt); }
+            let hs: Vec<String> = [3usize, 64].iter().map(|n| "a".repeat(*n)).collect();
+            for f in ["", "i"] { out.push((p.clone(), f.to_string(), hs.clone())); }
+        }
+    }
     for c in contexts.iter() {
         for b in bodies.iter() {
             for f in flags.iter() {
